@@ -255,7 +255,12 @@ if inject:
         if isinstance(obj, _types.FunctionType) and obj.__module__ == H.__name__:
             add(obj.__code__)
     add(af.resolve_types.__code__)
-    add(cv.get_converter.__code__)
+    for mod in (cv, T):
+        # module-level helper functions of converters.py and of the generated module (is_special_property,
+        # is_keyword_class, ...): first use of a class calls them from the hook factories
+        for name, obj in vars(mod).items():
+            if isinstance(obj, _types.FunctionType) and obj.__module__ == mod.__name__:
+                add(obj.__code__)
 sys.setswitchinterval(1e-6)
 errs = []
 convs = [None] * nthreads
@@ -430,7 +435,7 @@ def main(tier):
     cov = {
         "evaluations": hist_n + ntrials,
         "distinct_nontrivial": len(inter) + hist_n,
-        "rule": "histories: all sequences up to length 2 (thorough 3) + seeded longer ones over {fresh, user-supplied plain / detailed_validation off / forbid_extra_keys / with the user's own leaf hooks, re-register}; after each history every live converter must give exactly the battery results of a converter of its configuration created FIRST in a fresh process; schedules: fresh process per trial, N in {2,4,8,16} threads released by a barrier into their first get_converter() with switch interval 1e-6 and seeded LINE-event yield injection in lsprotocol._hooks / attrs.resolve_types, then the battery on every converter; non-trivial = distinct history or distinct interleaving (hash of the (thread, function, line) sequence in the critical code)",
+        "rule": "histories: all sequences up to length 2 (thorough 3) + seeded longer ones over {fresh, user-supplied plain / detailed_validation off / forbid_extra_keys / with the user's own leaf hooks, re-register}; after each history every live converter must give exactly the battery results of a converter of its configuration created FIRST in a fresh process; schedules: fresh process per trial, N in {2,4,8,16} threads released by a barrier into their first get_converter() with switch interval 1e-6 and seeded LINE-event yield injection in lsprotocol._hooks / lsprotocol.converters / the module-level helper functions of lsprotocol.types / attrs.resolve_types, then the battery on every converter; non-trivial = distinct history or distinct interleaving (hash of the (thread, function, line) sequence in the critical code)",
         "histories": hist_n,
         "battery_size": results[0]["battery"] if results else 0,
         "battery_items_that_raise": results[0]["battery_raises"] if results else 0,
